@@ -27,53 +27,88 @@ theorem Downs.ports_nets (ds : Downs) (a : Adapter) (h : a ∈ ds.ports) :
     · have := Downs.ports_nets rest a h
       simp [Downs.lans, this]
 
-/-- the other adapters of a router, seen from its up port: the down ports -/
-theorem router_others (P ua : Nat) (um : Mac) (la : Nat) (c : Cache) (ds : Downs)
-    (hua : ua ∉ ds.aids) :
-    (routerNode P ua um la c ds).node.others (mkPort ua um P) = ds.ports := by
-  simp only [Node.others, routerNode, List.filter_cons]
-  simp only [mkPort, bne_self_eq_false, Bool.false_eq_true, if_false]
-  apply List.filter_eq_self.mpr
-  intro a ha
-  have : a.aid ∈ ds.aids := by rw [← Downs.ports_aids]; exact List.mem_map_of_mem ha
-  simp
-  intro e; exact hua (e ▸ this)
+/-- all down ports of a router -/
+def allPorts (bf ds : Downs) : List Adapter := bf.ports ++ ds.ports
 
-theorem router_loc (P ua : Nat) (um : Mac) (la : Nat) (c : Cache) (ds : Downs)
-    (hla : la ∈ ua :: ds.aids) :
-    ∃ loc, (routerNode P ua um la c ds).node.loc = some loc ∧ loc.addr.isSome ∧ loc.net.isSome := by
+theorem allPorts_aids (bf ds : Downs) (a : Adapter) (h : a ∈ allPorts bf ds) : a.aid ∈ bf.aids ++ ds.aids := by
+  simp only [allPorts, List.mem_append] at h ⊢
+  rcases h with h | h
+  · left; rw [← Downs.ports_aids]; exact List.mem_map_of_mem h
+  · right; rw [← Downs.ports_aids]; exact List.mem_map_of_mem h
+
+theorem allPorts_nets (bf ds : Downs) (a : Adapter) (h : a ∈ allPorts bf ds) :
+    a.lan ∈ bf.lans ++ ds.lans ∧ a.net = some a.lan ∧ a.addr = some a.mac := by
+  simp only [allPorts, List.mem_append] at h ⊢
+  rcases h with h | h
+  · have := Downs.ports_nets bf a h; exact ⟨Or.inl this.1, this.2⟩
+  · have := Downs.ports_nets ds a h; exact ⟨Or.inr this.1, this.2⟩
+
+/-- the other adapters of a router, seen from its up port: the down ports -/
+theorem router_others (P ua : Nat) (um : Mac) (la : Nat) (c : Cache) (bf ds : Downs)
+    (hua : ua ∉ bf.aids ++ ds.aids) :
+    (routerNode P ua um la c bf ds).node.others (mkPort ua um P) = allPorts bf ds := by
+  have hk : ∀ l : List Adapter, (∀ a ∈ l, a.aid ≠ ua) → l.filter (fun x => x.aid != (mkPort ua um P).aid) = l := by
+    intro l hl
+    apply List.filter_eq_self.mpr
+    intro a ha
+    simp [mkPort, hl a ha]
+  have hb : ∀ a ∈ bf.ports, a.aid ≠ ua := by
+    intro a ha e
+    exact hua (e ▸ allPorts_aids bf ds a (by simp [allPorts, ha]))
+  have hd : ∀ a ∈ ds.ports, a.aid ≠ ua := by
+    intro a ha e
+    exact hua (e ▸ allPorts_aids bf ds a (by simp [allPorts, ha]))
+  simp only [Node.others, routerNode, List.filter_append, List.filter_cons, allPorts]
+  rw [hk bf.ports hb, hk ds.ports hd]
+  simp [mkPort]
+
+theorem router_loc (P ua : Nat) (um : Mac) (la : Nat) (c : Cache) (bf ds : Downs)
+    (hla : la ∈ ua :: (bf.aids ++ ds.aids)) :
+    ∃ loc, (routerNode P ua um la c bf ds).node.loc = some loc ∧ loc.addr.isSome ∧ loc.net.isSome ∧
+      (loc = mkPort ua um P ∨ loc ∈ allPorts bf ds) := by
   unfold Node.loc routerNode
   simp only
-  have : ∃ a ∈ mkPort ua um P :: ds.ports, (a.aid == la) = true := by
-    simp only [List.mem_cons] at hla
-    rcases hla with rfl | h
-    · exact ⟨_, List.mem_cons_self, by simp [mkPort]⟩
+  have : ∃ a ∈ bf.ports ++ mkPort ua um P :: ds.ports, (a.aid == la) = true := by
+    simp only [List.mem_cons, List.mem_append] at hla
+    rcases hla with rfl | h | h
+    · exact ⟨mkPort la um P, by simp, by simp [mkPort]⟩
     · rw [← Downs.ports_aids] at h
       obtain ⟨a, ha, rfl⟩ := List.mem_map.mp h
-      exact ⟨a, List.mem_cons_of_mem _ ha, by simp⟩
+      exact ⟨a, by simp [ha], by simp⟩
+    · rw [← Downs.ports_aids] at h
+      obtain ⟨a, ha, rfl⟩ := List.mem_map.mp h
+      exact ⟨a, by simp [ha], by simp⟩
   obtain ⟨a, ha, hp⟩ := this
-  cases hf : List.find? (fun x => x.aid == la) (mkPort ua um P :: ds.ports) with
+  cases hf : List.find? (fun x => x.aid == la) (bf.ports ++ mkPort ua um P :: ds.ports) with
   | none =>
     have := List.find?_eq_none.mp hf a ha
     simp [hp] at this
   | some loc =>
     refine ⟨loc, rfl, ?_⟩
     have hm := List.mem_of_find?_eq_some hf
-    simp only [List.mem_cons] at hm
-    rcases hm with rfl | hm
+    simp only [List.mem_append, List.mem_cons] at hm
+    rcases hm with hm | rfl | hm
+    · have := Downs.ports_nets bf loc hm
+      simp [this, allPorts, hm]
     · simp [mkPort]
     · have := Downs.ports_nets ds loc hm
-      simp [this]
+      simp [this, allPorts, hm]
 
-theorem router_hasNet (P ua : Nat) (um : Mac) (la : Nat) (c : Cache) (ds : Downs) (x : Nat)
-    (h1 : x ≠ P) (h2 : x ∉ ds.lans) :
-    (routerNode P ua um la c ds).node.hasNet (some x) = false := by
-  simp only [Node.hasNet, routerNode, List.any_cons, mkPort, Bool.or_eq_false_iff, List.any_eq_false]
-  refine ⟨by simp [Ne.symm h1], ?_⟩
-  intro a ha
-  have := Downs.ports_nets ds a ha
-  simp [this.2.1]
-  intro e; exact h2 (e ▸ this.1)
+theorem router_hasNet (P ua : Nat) (um : Mac) (la : Nat) (c : Cache) (bf ds : Downs) (x : Nat)
+    (h1 : x ≠ P) (h2 : x ∉ bf.lans ++ ds.lans) :
+    (routerNode P ua um la c bf ds).node.hasNet (some x) = false := by
+  simp only [Node.hasNet, routerNode, List.any_append, List.any_cons, mkPort, Bool.or_eq_false_iff,
+    List.any_eq_false]
+  simp only [List.mem_append, not_or] at h2
+  refine ⟨?_, by simp [Ne.symm h1], ?_⟩
+  · intro a ha
+    have := Downs.ports_nets bf a ha
+    simp [this.2.1]
+    intro e; exact h2.1 (e ▸ this.1)
+  · intro a ha
+    have := Downs.ports_nets ds a ha
+    simp [this.2.1]
+    intro e; exact h2.2 (e ▸ this.1)
 
 theorem sends_map_send (l : List Adapter) (lk : Link) (q : Npci) (d : Decision)
     (h : d.out = l.map (fun a => Out.send a lk q)) :
@@ -84,46 +119,52 @@ theorem sends_map_send (l : List Adapter) (lk : Link) (q : Npci) (d : Decision)
   | nil => rfl
   | cons a l ih => simp [List.filterMap_cons, ih]
 
+theorem router_len (P ua : Nat) (um : Mac) (la : Nat) (c : Cache) (bf ds : Downs) :
+    ((routerNode P ua um la c bf ds).node.adapters.length == 1) = (allPorts bf ds).isEmpty := by
+  simp only [routerNode, allPorts, List.length_append, List.length_cons]
+  cases hb : bf.ports <;> cases hd : ds.ports <;> simp <;> omega
+
 /-- a router hearing a global broadcast on its up port: nothing for an application, one copy on
     every down port, SADR filled in if the frame had none -/
-theorem router_gb (P ua : Nat) (um : Mac) (la : Nat) (c : Cache) (ds : Downs)
+theorem router_gb (P ua : Nat) (um : Mac) (la : Nat) (c : Cache) (bf ds : Downs)
     (sIn : Option (Nat × Mac)) (v : Option Nat) (er : Bool) (prio : Nat) (data : Bytes) (h : Nat) (u : Mac)
-    (hua : ua ∉ ds.aids) (hla : la ∈ ua :: ds.aids)
-    (hs : ∀ s, sIn = some s → s.1 ≠ P ∧ s.1 ∉ ds.lans)
-    (hh : ds = .nil ∨ h ≠ 0) :
-    delivered (routerNode P ua um la c ds) (mkPort ua um P) ⟨P, u, .bcast, gbp sIn v er prio data h⟩ = [] ∧
-    emitted (routerNode P ua um la c ds) (mkPort ua um P) ⟨P, u, .bcast, gbp sIn v er prio data h⟩ =
-      ds.ports.map (fun a => ⟨a.lan, a.mac, .bcast, gbp (some (sIn.getD (P, u))) v er prio data (h - 1)⟩) := by
-  obtain ⟨loc, hloc, _, _⟩ := router_loc P ua um la c ds hla
-  have hsp : spoofed (routerNode P ua um la c ds).node (gbp sIn v er prio data h) = false := by
+    (hua : ua ∉ bf.aids ++ ds.aids) (hla : la ∈ ua :: (bf.aids ++ ds.aids))
+    (hs : ∀ s, sIn = some s → s.1 ≠ P ∧ s.1 ∉ bf.lans ++ ds.lans)
+    (hh : allPorts bf ds = [] ∨ h ≠ 0) :
+    delivered (routerNode P ua um la c bf ds) (mkPort ua um P) ⟨P, u, .bcast, gbp sIn v er prio data h⟩ = [] ∧
+    emitted (routerNode P ua um la c bf ds) (mkPort ua um P) ⟨P, u, .bcast, gbp sIn v er prio data h⟩ =
+      (allPorts bf ds).map (fun a => ⟨a.lan, a.mac, .bcast, gbp (some (sIn.getD (P, u))) v er prio data (h - 1)⟩) := by
+  obtain ⟨loc, hloc, _, _⟩ := router_loc P ua um la c bf ds hla
+  have hsp : spoofed (routerNode P ua um la c bf ds).node (gbp sIn v er prio data h) = false := by
     simp only [spoofed, gbp]
     cases sIn with
     | none => rfl
-    | some s => exact router_hasNet P ua um la c ds s.1 (hs s rfl).1 (hs s rfl).2
-  have hr : ∃ lrn, route (routerNode P ua um la c ds).node (routerNode P ua um la c ds).cache (mkPort ua um P) u .bcast
+    | some s => exact router_hasNet P ua um la c bf ds s.1 (hs s rfl).1 (hs s rfl).2
+  have hr : ∃ lrn, route (routerNode P ua um la c bf ds).node (routerNode P ua um la c bf ds).cache (mkPort ua um P) u .bcast
       (gbp sIn v er prio data h) =
       { learn := lrn,
-        out := forward (routerNode P ua um la c ds).node
-          (learned (routerNode P ua um la c ds).cache (mkPort ua um P) u (gbp sIn v er prio data h))
+        out := forward (routerNode P ua um la c bf ds).node
+          (learned (routerNode P ua um la c bf ds).cache (mkPort ua um P) u (gbp sIn v er prio data h))
           (mkPort ua um P) u (gbp sIn v er prio data h) } := by
     unfold route
     simp only [hloc, hsp]
     simp [classify, gbp, routeGo, routerNode, mkPort]
   obtain ⟨lrn, hr⟩ := hr
-  have hf : forward (routerNode P ua um la c ds).node
-          (learned (routerNode P ua um la c ds).cache (mkPort ua um P) u (gbp sIn v er prio data h))
+  have hf : forward (routerNode P ua um la c bf ds).node
+          (learned (routerNode P ua um la c bf ds).cache (mkPort ua um P) u (gbp sIn v er prio data h))
           (mkPort ua um P) u (gbp sIn v er prio data h) =
-        ds.ports.map (fun a => Out.send a .bcast (gbp (some (sIn.getD (P, u))) v er prio data (h - 1))) := by
-    cases ds with
-    | nil => simp [forward, routerNode, Downs.ports]
-    | cons aid mac sub rest =>
-      have hh : h ≠ 0 := by
-        rcases hh with hh | hh
-        · cases hh
-        · exact hh
-      have ho := router_others P ua um la c (.cons aid mac sub rest) hua
-      unfold forward
-      simp only [routerNode, Downs.ports, List.length_cons] at ho ⊢
+        (allPorts bf ds).map (fun a => Out.send a .bcast (gbp (some (sIn.getD (P, u))) v er prio data (h - 1))) := by
+    have hlen := router_len P ua um la c bf ds
+    unfold forward
+    by_cases hall : allPorts bf ds = []
+    · simp [hlen, hall]
+    · have hh : h ≠ 0 := hh.resolve_left hall
+      have hne : (allPorts bf ds).isEmpty = false := by
+        cases hp : allPorts bf ds with
+        | nil => exact absurd hp hall
+        | cons _ _ => rfl
+      have ho := router_others P ua um la c bf ds hua
+      simp only [hlen, hne, Bool.false_eq_true, if_false]
       have ho' := ho
       simp only [mkPort] at ho'
       cases sIn with
@@ -132,7 +173,7 @@ theorem router_gb (P ua : Nat) (um : Mac) (la : Nat) (c : Cache) (ds : Downs)
   constructor
   · simp [delivered, hr]
   · simp only [emitted]
-    rw [sends_map_send ds.ports .bcast (gbp (some (sIn.getD (P, u))) v er prio data (h - 1)) _ (by rw [hr]; exact hf)]
+    rw [sends_map_send (allPorts bf ds) .bcast (gbp (some (sIn.getD (P, u))) v er prio data (h - 1)) _ (by rw [hr]; exact hf)]
     simp
 
 end BacVerif.C06
@@ -248,32 +289,40 @@ theorem Routers.gb (rs : Routers) (topo : Topology) (P : Nat) (u : Mac) (h : Nat
       gbExpect (sIn.getD (P, u)) er prio data rs.population := by
   match rs with
   | .nil => rfl
-  | .cons ua um la c ds rest =>
+  | .cons ua um la c bf ds rest =>
+    have hB := hR.before hP hnd
     have hD := hR.downs hP hnd
     have hRr := hR.rest hP hnd
     simp only [Routers.lans, List.mem_append, not_or] at hP hs
     simp only [Routers.lans, List.nodup_append] at hnd
     simp only [Routers.wf, Bool.and_eq_true, decide_eq_true_eq, List.nodup_cons, List.contains_iff_mem] at hwf
-    obtain ⟨⟨⟨⟨hua, _⟩, hla⟩, hdwf⟩, hrwf⟩ := hwf
+    obtain ⟨⟨⟨⟨⟨hua, _⟩, hla⟩, hbwf⟩, hdwf⟩, hrwf⟩ := hwf
     simp only [Routers.upMacs, List.mem_cons, not_or] at hu
     simp only [Routers.height] at hh
     have hmo : macOk ⟨P, u, .bcast, gbp sIn v er prio data h⟩ (mkPort ua um P) = true := by
       simp [macOk, mkPort, Ne.symm hu.1]
     simp only [Routers.upEntries, List.filter_cons, hmo, if_true, List.flatMap_cons]
-    have hhh : ds = .nil ∨ h ≠ 0 := by
-      cases ds with
-      | nil => exact Or.inl rfl
-      | cons aid mac sub rst =>
-        right
-        simp only [Downs.height] at hh
+    have hhh : allPorts bf ds = [] ∨ h ≠ 0 := by
+      by_cases hall : allPorts bf ds = []
+      · exact Or.inl hall
+      · right
+        have : 1 ≤ bf.height ∨ 1 ≤ ds.height := by
+          cases bf with
+          | cons _ _ _ _ => left; simp only [Downs.height]; omega
+          | nil =>
+            cases ds with
+            | cons _ _ _ _ => right; simp only [Downs.height]; omega
+            | nil => exact absurd (by simp [allPorts, Downs.ports]) hall
         omega
-    have hsd : ∀ s, sIn = some s → s.1 ≠ P ∧ s.1 ∉ ds.lans := by
+    have hsd : ∀ s, sIn = some s → s.1 ≠ P ∧ s.1 ∉ bf.lans ++ ds.lans := by
       intro s e
       subst e
-      exact ⟨hsP s rfl, hs.1⟩
-    obtain ⟨hd, he⟩ := router_gb P ua um la c ds sIn v er prio data h u hua hla hsd hhh
+      exact ⟨hsP s rfl, by simpa using hs.1⟩
+    obtain ⟨hd, he⟩ := router_gb P ua um la c bf ds sIn v er prio data h u hua hla hsd hhh
     rw [hd, he, List.nil_append]
-    rw [Downs.gb ds topo (routerNode P ua um la c ds) (h - 1) (sIn.getD (P, u)) hD hnd.1 hdwf hs.1 (by omega)]
+    simp only [allPorts, List.map_append, List.flatMap_append]
+    rw [Downs.gb bf topo (routerNode P ua um la c bf ds) (h - 1) (sIn.getD (P, u)) hB hnd.1.1 hbwf hs.1.1 (by omega)]
+    rw [Downs.gb ds topo (routerNode P ua um la c bf ds) (h - 1) (sIn.getD (P, u)) hD hnd.1.2.1 hdwf hs.1.2 (by omega)]
     rw [Routers.gb rest topo P u h sIn hRr hP.2 hnd.2.1 hrwf hu.2 hsP hs.2 (by omega)]
     simp [Routers.population, gbExpect]
 theorem Downs.gb (ds : Downs) (topo : Topology) (r : TNode) (h' : Nat) (s0 : Nat × Mac)
